@@ -2,6 +2,7 @@ import MorfuseModel.Sched.Guard
 import MorfuseModel.Sched.TimerLemmas
 import MorfuseModel.Unwind.Lemmas
 import MorfuseModel.Unwind.Spin
+import MorfuseModel.Unwind.Timing
 /-!
 # C14 — runaway and over-deep scripts are stopped
 
@@ -554,5 +555,51 @@ example : (run exTight 8 (startCall exTight {} 0)).stack ≠ [] ∧ (run exTight
 /-- protection off, 40 steps: still three frames, three extensions so far, three Debug blocks -/
 example : (run exLoopOff 40 (startCall exLoopOff {} 0)).stack.length = 3 ∧ extensions exLoopOff 40 (startCall exLoopOff {} 0) = 3 ∧
     (runD exLoopOff 40 (startCall exLoopOff {} 0, [])).2 = [.dbgUpdate, .dbgUpdate, .dbgUpdate] := by decide
+
+/-- **Every activation has its own deadline and a bounded instruction budget** (all programs, all nestings,
+    protection on or off).  Limit `L ≠ 0`, clock advancing by at least `δ > 0` per reading: in every state
+    reached during a host call, for every `ScriptVM::Execute` frame on the native stack with `n` instructions
+    executed since its deadline was (re)taken: the deadline is non-zero; whenever its time check passes
+    (`cmdTime < nextTime`) then `n·δ < L`, so `n ≤ L/δ`; and a check evaluated after `n ≥ L/δ + 1` instructions
+    finds `cmdTime ≥ nextTime`, i.e. fires if the VM is still running.  Hence no activation executes more
+    than `L/δ + 1` checked instructions per deadline — the step from which termination of nested programs
+    follows by induction over the nesting (bounded by `C14_unwind_depth_limit`); see notes/C14-design.md §3
+    for what is and is not proved about whole host calls. -/
+theorem C14_unwind_activation_bounded (E : Env) (δ : Nat) (hL : E.cfg.maxExec ≠ 0) (hδ : 0 < δ) (hinc : ∀ i, E.inc i ≥ δ)
+    (s0 : St) (label k : Nat) (t : Tid) (dl ct n : Nat) (post : Bool)
+    (hmem : Frame.vm t dl ct post n ∈ (run E k (startCall E s0 label)).stack) :
+    dl ≠ 0 ∧ (ct < dl → n * δ < E.cfg.maxExec ∧ n ≤ E.cfg.maxExec / δ) ∧
+    (post = true → n ≥ E.cfg.maxExec / δ + 1 → ct ≥ dl) := by
+  have h := run_allOK E δ hL hinc k _ (startCall_allOK E δ hL hinc s0 label) _ hmem
+  simp only [FrameOK] at h
+  obtain ⟨h1, _, h3⟩ := h
+  refine ⟨h1, ?_, ?_⟩
+  · intro hlt
+    have hn : n * δ < E.cfg.maxExec := by cases post <;> simp at h3 <;> omega
+    exact ⟨hn, (Nat.le_div_iff_mul_le hδ).mpr (Nat.le_of_lt hn)⟩
+  · intro hp hn
+    subst hp
+    simp at h3
+    have h4 : E.cfg.maxExec < (E.cfg.maxExec / δ + 1) * δ := by
+      have := Nat.lt_mul_div_succ E.cfg.maxExec hδ
+      rw [Nat.mul_comm]; exact this
+    have h5 : (E.cfg.maxExec / δ + 1) * δ ≤ n * δ := Nat.mul_le_mul_right δ hn
+    omega
+
+/-- the same for a frame (`ScriptContext::Execute`): scheduler-resumed threads -/
+theorem C14_unwind_activation_bounded_late (E : Env) (δ : Nat) (hL : E.cfg.maxExec ≠ 0) (hδ : 0 < δ) (hinc : ∀ i, E.inc i ≥ δ)
+    (s0 : St) (k : Nat) (t : Tid) (dl ct n : Nat) (post : Bool)
+    (hmem : Frame.vm t dl ct post n ∈ (run E k (startExecute E s0)).stack) :
+    dl ≠ 0 ∧ (ct < dl → n * δ < E.cfg.maxExec) := by
+  have h := run_allOK E δ hL hinc k _ (startExecute_allOK E δ s0) _ hmem
+  simp only [FrameOK] at h
+  obtain ⟨h1, _, h3⟩ := h
+  exact ⟨h1, fun hlt => by cases post <;> simp at h3 <;> omega⟩
+
+/-- non-vacuity: the nested frames of `exRec` with a 3 ms limit, clock +1: the frame of the third activation
+    is on the stack after 8 steps with a deadline of its own -/
+def exRecT : Env := { exRec with cfg := { exRec.cfg with maxExec := 3 }, inc := fun _ => 1 }
+example : (run exRecT 8 (startCall exRecT {} 0)).stack.filterMap (fun f => match f with | .vm t dl _ _ n => some (t, dl, n) | _ => none) =
+    [(3, 9, 1), (2, 6, 2), (1, 3, 2)] := by decide
 
 end Morfuse.Unwind
